@@ -16,8 +16,11 @@ from concurrent.futures import ThreadPoolExecutor
 VERIF = os.path.dirname(os.path.dirname(os.path.abspath(__file__)))
 SPEC = os.path.join(VERIF, "spec")
 HARNESS = os.path.join(VERIF, "harness")
-EVID = os.path.join(VERIF, "evidence")
-REPLAY = os.path.join(VERIF, "replay")
+# VERIF_OUT_DIR (development aid, tools/try_mutant.py --root): write evidence / replay files elsewhere, so that trying a
+# seeded change does not disturb the files of a check running at the same time
+_OUT = os.environ.get("VERIF_OUT_DIR") or VERIF
+EVID = os.path.join(_OUT, "evidence")
+REPLAY = os.path.join(_OUT, "replay")
 CACHE = os.path.join(VERIF, ".cache")
 PY = "/venv/bin/python"
 TLA_CP = "/opt/veriftools/tla/tla2tools.jar:/opt/veriftools/tla/CommunityModules-deps.jar"
